@@ -181,7 +181,8 @@ def splice(scratch, units, report):
         dest = os.path.join(os.path.dirname(mpath), f"verif_{u.name}.rs")
         disp = ["", "#[cfg(all(test, verif_replay))]", "#[test]", "fn verif_replay_entry() {",
                 "    extern crate std as verif_std;",
-                "    utils::verif_support::replay_load_from_env();",
+                ("    crate::verif_support::replay_load_from_env();" if u.crate == "utils/core" else
+                 "    utils::verif_support::replay_load_from_env();"),
                 "    let h = verif_std::env::var(\"VERIF_REPLAY_HARNESS\").unwrap();",
                 "    match h.as_str() {"]
         for h in u.harnesses:
@@ -314,6 +315,17 @@ def run_crate(scratch, crate, harnesses, jobs=JOBS, extra_args=()):
         for r in res.values():
             if r.status == "missing":
                 r.status = "timeout"
+    for r in res.values():
+        low = r.raw.lower()
+        if "cbmc timed out" in low:
+            r.status = "timeout"
+        elif "out of memory" in low or "cbmc failed" in low or "bad_alloc" in low or "cbmc crashed" in low:
+            r.status = "error"
+        elif r.status == "failed" and not r.failed:
+            # a FAILED verdict without a single failed check is a tool failure, never a pass
+            r.status = "error"
+        elif r.status == "success" and r.total == 0:
+            r.status = "error"
     compile_failed = ("error: could not compile" in out or "error[E" in out or
                       re.search(r"^error: (?!.*harness)", out, re.M) is not None and not res)
     if all(r.status == "missing" for r in res.values()) and (rc != 0):
